@@ -30,7 +30,7 @@ Judge(t) ==
       ELSE LET r == H!FirstBad(t.ein, t.eout, 1)
            IN  IF r.at = 0 THEN [ok |-> TRUE, why |-> "-", at |-> 0]
                ELSE IF HD!LostEmptyDocs(HD!Docs(t.ein), HD!Docs(t.eout), 0)
-               THEN [ok |-> FALSE, why |-> r.why \o ":empty-root-document-lost", at |-> r.at]
+               THEN [ok |-> FALSE, why |-> r.why \o ":empty-root-lost:" \o HD!LostKind(HD!Docs(t.ein), HD!Docs(t.eout)), at |-> r.at]
                ELSE IF r.why = "scalar value"
                THEN [ok |-> FALSE, why |-> "value:" \o H!DiffClass(H!Norm(t.ein[r.at]).v, H!Norm(t.eout[r.at]).v), at |-> r.at]
                ELSE [ok |-> FALSE, why |-> r.why, at |-> r.at]
